@@ -57,6 +57,7 @@ Reset ==
   /\ dirty' = [s \in Conns |-> FALSE]
   /\ tTx' = [s \in Conns |-> "I"] /\ tCopy' = [s \in Conns |-> "no"]
   /\ tUnread' = [s \in Conns |-> FALSE] /\ tDirt' = [s \in Conns |-> NONE]
+  /\ tPend' = [s \in Conns |-> NONE]
   /\ last' = [s \in Conns |-> NONE] /\ cmap' = [c \in Clients |-> NONE] /\ viol' = {}
   /\ sc' = E.sc /\ psize' = E.pool_size /\ txm' = E.txmode
   /\ owner' = [s \in Conns |-> NONE] /\ txconn' = [c \in Clients |-> NONE]
@@ -196,7 +197,7 @@ BExec ==
         /\ IF split THEN Report("transaction_split", [client |-> c, conn |-> s, started_on |-> txconn[c]]) ELSE TRUE
         /\ Mark((IF v1 THEN {"dirty_handoff"} ELSE {}) \cup (IF shared THEN {"session_shared"} ELSE {})
                 \cup (IF split THEN {"transaction_split"} ELSE {}))
-  /\ UNCHANGED <<cvars, bvars, tUnread, tDirt, cmap, viol, sc, psize, txm>>
+  /\ UNCHANGED <<cvars, bvars, tUnread, tDirt, tPend, cmap, viol, sc, psize, txm>>
 
 \* The client is about to close / has been told its session ended: session ownership ends.
 BClosing ==
@@ -213,7 +214,7 @@ BSessionEnd ==
   /\ last' = [last EXCEPT ![E.s] = NONE]
   /\ txconn' = [c \in Clients |-> IF txconn[c] = E.s THEN NONE ELSE txconn[c]]
   /\ Mark({})
-  /\ UNCHANGED <<cvars, bvars, tTx, tCopy, tUnread, tDirt, cmap, viol, sc, psize, txm>>
+  /\ UNCHANGED <<cvars, bvars, tTx, tCopy, tUnread, tDirt, tPend, cmap, viol, sc, psize, txm>>
 
 \* What a client observed for one of its statements (echo from the backend).
 BResult ==
